@@ -142,6 +142,7 @@ pub fn run(ctx: &Ctx) -> i32 {
     }
     let programs = acc.stats.get("documents_equal") + acc.found.len() as u64;
     let disagreements = acc.stats.get("outcome:doc") - acc.stats.get("documents_equal");
+    acc.witnesses();
     acc.finish(
         "translation_validation",
         "G-wt programs (type-directed generator over the whole surface language, <=3 modules, depth <=4, rejection-sampled away from shapes the language leaves unspecified and from open findings), each compiled by the real pipeline and compared with the reference document up to bisimilarity of implicit components; non-trivial = accepted and has >=3 of {application, rec/recursive declaration, import, content meta, URI variable, annotation}; distinct by source hash",
